@@ -84,10 +84,12 @@ Dev_Feb29CommonYearTm(p, obs) == Feb29Case(p) /\ obs = TmOutcome(p)
 \* Dev_PlusMinusYear: a '+' is skipped and the rest is handed to the integer parser, so "+-YYYY-..." is read as year -YYYY
 Dev_PlusMinusYear(t, i, obs) ==
   /\ At(t, 1, ChPlus) /\ At(t, 2, ChMinus)
-  /\ LET t2 == SubSeq(t, 2, Len(t)) p2 == DtParse(t2) IN
-     p2.ok /\ DtFieldsOK(p2) /\
-     (IF i = 30 THEN obs = TmOutcome(p2)
-      ELSE LibraryOutcomeDt(p2, IF i = 29 THEN "s" ELSE TUnit(i), IF i = 29 THEN "i64" ELSE TRep(i), obs))
+  /\ LET t2 == SubSeq(t, 2, Len(t)) p2 == DtParse(t2)
+         \* the library's reading of t2, including its February 29 deviation
+         q == IF p2.ok /\ ~DtFieldsOK(p2) /\ Feb29Case(p2) THEN AsMarch1(p2) ELSE p2
+     IN p2.ok /\ DtFieldsOK(q) /\
+        (IF i = 30 THEN obs = TmOutcome(p2)
+         ELSE LibraryOutcomeDt(q, IF i = 29 THEN "s" ELSE TUnit(i), IF i = 29 THEN "i64" ELSE TRep(i), obs))
 
 \* Dev_ComponentwisePrecision: every component is converted to the target unit on its own, so PT30M1800S (= 1 h) is
 \* rejected for an hours target because 30 min is not a whole number of hours.
